@@ -117,16 +117,60 @@ def alphabet():
     return A
 
 
+def reuse_alphabet():
+    """Reduced alphabet on one model that reuses the field names a/d (length-4
+    sequences are enumerated over it)."""
+    F = S.new_field
+    A = []
+
+    def add(name, kind, initial=None, **kw):
+        f = F(name, kind, **kw)
+        f['uid'] = 'radd:%s.%s' % (name, kind)
+        A.append({'kind': 'AddField', 'app': 'pa', 'model': 'Alpha', 'field': f,
+                  'initial': initial})
+
+    def chg(name, initial=None, **attrs):
+        A.append({'kind': 'ChangeField', 'app': 'pa', 'model': 'Alpha', 'name': name,
+                  'attrs': attrs, 'field_kind': None, 'initial': initial})
+
+    def ren(old, new):
+        A.append({'kind': 'RenameField', 'app': 'pa', 'model': 'Alpha', 'old': old, 'new': new,
+                  'db_column': None, 'db_table': None})
+    chg('a', max_length=30)
+    chg('a', null=True)
+    chg('a', max_length=15, null=True)
+    chg('d', max_length=40)
+    ren('a', 'd')
+    ren('d', 'a')
+    add('a', 'Char', initial='n', max_length=10)
+    add('d', 'Char', max_length=10, null=True)
+    add('a', 'Integer', null=True)
+    A.append({'kind': 'DeleteField', 'app': 'pa', 'model': 'Alpha', 'name': 'a'})
+    A.append({'kind': 'DeleteField', 'app': 'pa', 'model': 'Alpha', 'name': 'd'})
+    return A
+
+
 def small_sequences(max_len=3):
-    A = alphabet()
-    n = len(A)
+    """('main', idxs) over the main alphabet up to max_len, then ('reuse', idxs)
+    over the reduced name-reuse alphabet up to length 4."""
+    n = len(alphabet())
     for length in range(1, max_len + 1):
         for idxs in itertools.product(range(n), repeat=length):
             yield idxs
+    r = len(reuse_alphabet())
+    for length in range(2, 5):
+        for idxs in itertools.product(range(r), repeat=length):
+            yield tuple(-1 - i for i in idxs)       # negative = reuse alphabet
 
 
 def small_case(idxs, cuts=()):
     A = alphabet()
+    if idxs and idxs[0] < 0:
+        A2 = reuse_alphabet()
+        rows, links = small_rows()
+        return {'mode': 'small', 'spec': small_spec(),
+                'seq': [copy.deepcopy(A2[-1 - i]) for i in idxs],
+                'rows': rows, 'links': links, 'cuts': list(cuts), 'idxs': list(idxs)}
     rows, links = small_rows()
     return {'mode': 'small', 'spec': small_spec(), 'seq': [copy.deepcopy(A[i]) for i in idxs],
             'rows': rows, 'links': links, 'cuts': list(cuts), 'idxs': list(idxs)}
@@ -152,7 +196,8 @@ def random_cases(draw, stratum):
 
 def jobs(tier, scale=1.0):
     out = []
-    total = sum(len(alphabet()) ** k for k in (1, 2, 3))
+    total = sum(len(alphabet()) ** k for k in (1, 2, 3)) + \
+        sum(len(reuse_alphabet()) ** k for k in (2, 3, 4))
     nsh = 12
     for i in range(nsh):
         out.append({'kind': 'small', 'shard': i, 'of': nsh,
